@@ -183,7 +183,7 @@ def minres_key0(spec, kind):
             "mm": spec.get("mm", "callable"),
             "pre": spec.get("pre", "none"), "shifts": spec["shifts"]["kind"], "batch": len(spec["batch"]),
             "vec": bool(spec.get("rhs_vec")), "value": spec.get("value") is not None,
-            "dtype": spec.get("dtype", "float64"), "fam": spec["fam"]}
+            "dtype": spec.get("dtype", "float64"), "fam": spec["fam"], "order": spec["shifts"].get("order")}
 
 
 def minres_direct(spec, T, obs, mi):
@@ -215,10 +215,16 @@ def minres_direct(spec, T, obs, mi):
     exit_kind = "cap" if its >= cap else "test"
     bound = G.residual_bound(spec, mi, st, exit_kind)
     if bound is not None:
-        r = float(S.residuals(T, spec, x)[:, live].max())
+        rq = S.residuals(T, spec, x)[:, live].amax(-1)         # one value per shift index: EVERY shift must be solved
+        r = float(rq.max())
         if not r <= bound:
-            fails.append(("residual", "relative residual %.3g of a shifted system exceeds %.3g (minres_tolerance %.1g; the loop ended by %s after %d bodies)"
-                          % (r, bound, st["tol"], "the iteration cap n+3" if exit_kind == "cap" else "the convergence test", its),
+            how = ("the iteration cap n+3" if exit_kind == "cap" else "the convergence test") + " after %d bodies" % its
+            if obs["iters"] is None:
+                how = "an unobserved number of bodies (tensor closure), at most %d" % cap
+                exit_kind = "unobserved"
+            fails.append(("residual", "relative residual %.3g of the shifted system with shift index %d of %d exceeds %.3g "
+                                      "(minres_tolerance %.1g; the loop ended by %s)"
+                          % (r, int(rq.argmax()), int(rq.numel()), bound, st["tol"], how),
                           {"exit": exit_kind}))
     return fails
 
@@ -421,7 +427,7 @@ def run_shards_limited(ctx, shards, workers=3, timeout=900):
 def ciq_key(spec, kind):
     return {"check": "ciq", "call": spec["call"], "op": spec["op"], "fail": fail_class(kind), "detail": kind,
             "illcond": float(spec["kappa"]) >= 1e3, "batch": len(spec["batch"]), "lhs": bool(spec.get("lhs")),
-            "inverse": bool(spec.get("inverse")), "vec": bool(spec.get("rhs_vec"))}
+            "inverse": bool(spec.get("inverse")), "vec": bool(spec.get("rhs_vec")), "fam": spec["fam"]}
 
 
 def to_cols(x, B, n, t):
